@@ -256,15 +256,21 @@ impl Env {
             );
             Transaction::script(0, vec![], vec![], Policies::new().with_max_fee(0), vec![input], vec![], vec![])
         };
+        // The gas comes from the subject's estimation, but nothing here depends on the
+        // estimate being right: the predicate runs (and dirties the memory) whatever the
+        // verdict is, and the dirtiness itself is asserted.
         let mut t = mk(0);
-        predicates::estimate_predicates(&mut t, &self.cpp, MemoryInstance::new(), &EmptyStorage, NotSupportedEcal)
-            .expect("estimate dirtying predicate");
-        let checked = t
+        let _ = guard::catch_any(|| {
+            predicates::estimate_predicates(&mut t, &self.cpp, MemoryInstance::new(), &EmptyStorage, NotSupportedEcal)
+        });
+        let gas = gas_vec(&t)[0].max(100);
+        let checked = mk(gas)
             .into_checked_basic(BlockHeight::new(0), &self.cp)
             .expect("dirtying tx basic");
         let mut mem = MemoryInstance::new();
-        predicates::check_predicates(&checked, &self.cpp, &mut mem, &EmptyStorage, NotSupportedEcal)
-            .expect("dirtying predicate must verify");
+        let _ = guard::catch_any(|| predicates::check_predicates(&checked, &self.cpp, &mut mem, &EmptyStorage, NotSupportedEcal));
+        let top = fuel_vm::consts::VM_MAX_RAM;
+        assert_eq!(mem.read(top - 1, 1u64).map(|b| b[0]), Ok(1), "predicate-dirtied memory must hold a stale heap byte");
         mem
     }
 }
@@ -1653,12 +1659,19 @@ fn limit_params(env: &Env, max_gas_per_tx: u64, max_gas_per_predicate: u64) -> (
     (cp, cpp)
 }
 
-/// Needed gas per predicate (estimated under generous limits) and the tx's max_gas with
+/// Needed gas per predicate (reference interpreter) and the tx's max_gas with
 /// zero declared predicate gas.
 fn limit_needs(roles: &[u8], env: &Env) -> (Vec<u64>, u64) {
     let tx0 = limit_tx(roles, &vec![0; roles.len()], env);
-    let (v, need) = estimate_seq(&tx0, &env.cpp, MemoryInstance::new());
-    assert!(v.is_ok(), "limit family estimates under standard parameters");
+    // needs from the reference interpreter (noop = letter 2, ret $one = letter 0)
+    let need: Vec<u64> = roles
+        .iter()
+        .map(|r| {
+            let mut p = vec![2u8; [0usize, 5, 20][*r as usize]];
+            p.push(0);
+            reference(&p, 0, &[0], 0, &env.cpp.gas_costs).1
+        })
+        .collect();
     let b = tx0.max_gas(&env.cpp.gas_costs, &env.cpp.fee_params);
     (need, b)
 }
